@@ -176,6 +176,42 @@ type Decl struct {
 	Simple   bool   // struct of basic fields only: target of hand-written instances
 	Shape    string // grammar production that made it (evidence)
 	SelfRec  bool   // refers to itself / a partner through pointers
+	// NestVis: the declaration is a plain (non-@fp.Value) struct of a working package meant to be used
+	// as a field type; the value is the visibility mix of its fields (visAllExported, visAllUnexported,
+	// visMixed). gombok derives such a struct on demand under recursive=true whatever the mix (its
+	// fields are accessible from the generated code, which lives in the same package).
+	NestVis string
+	// NoInstance: no instance of any typeclass is declared or derived for the type and the grammar must
+	// not add one; what gombok emits for a field of this type (a catch-all Given, or a reference to an
+	// undeclared instance = refusal) is the thing observed.
+	NoInstance bool
+}
+
+const (
+	visAllExported   = "all-exported"
+	visAllUnexported = "all-unexported"
+	visMixed         = "mixed"
+)
+
+var visMixes = []string{visAllExported, visAllUnexported, visMixed}
+
+// visibilityMix classifies the fields of a struct declaration.
+func visibilityMix(d *Decl) string {
+	pubs, privs := 0, 0
+	for _, f := range d.Fields {
+		if f.Public() {
+			pubs++
+		} else {
+			privs++
+		}
+	}
+	switch {
+	case privs == 0:
+		return visAllExported
+	case pubs == 0:
+		return visAllUnexported
+	}
+	return visMixed
 }
 
 func (d *Decl) bind(args []*TX) map[string]*TX {
@@ -251,7 +287,7 @@ func (d *Decl) derivable() bool {
 	if !d.IsStruct {
 		return true
 	}
-	if d.Value {
+	if d.Value || d.NestVis != "" {
 		return true
 	}
 	for _, f := range d.Fields {
@@ -347,6 +383,14 @@ type Override struct {
 }
 
 type Pkg struct {
+	// UndeclaredOK: instance names gombok may reference without declaring them (its way of refusing
+	// a derivation whose nested instance is missing); a generated file whose only compile errors are
+	// `undefined: <one of these>` counts as a refusal of the package, not as a violation.
+	UndeclaredOK map[string]bool
+	// UndeclaredPrefix: same, for every name with this prefix (a missing nested instance also makes gombok
+	// reference undeclared instances of the types wrapped around it: CloneFpSeq, CloneSlice, ...)
+	UndeclaredPrefix string
+
 	Name        string
 	Decls       []*Decl
 	Derives     []*Derive
@@ -354,6 +398,12 @@ type Pkg struct {
 	ImportGiven []TC
 	Imports     []*Pkg
 	SortedSeq   bool // declares EqSeq(eqT, ordT) comparing sorted copies (README section 7)
+}
+
+func (p *Pkg) refusable() bool { return len(p.UndeclaredOK) > 0 || p.UndeclaredPrefix != "" }
+
+func (p *Pkg) mayBeUndeclared(name string) bool {
+	return p.UndeclaredOK[name] || (p.UndeclaredPrefix != "" && strings.HasPrefix(name, p.UndeclaredPrefix))
 }
 
 func (p *Pkg) findOverride(tc TC, target string) *Override {
@@ -574,6 +624,9 @@ func defaultApplies(tc TC, d *Decl, rec bool) bool {
 	case Monoid:
 		return false
 	case Clone:
+		if d.NoInstance {
+			return true // the catch-all clone.Given[T any] is all there is
+		}
 		if rec && d.derivable() {
 			return false
 		}
